@@ -94,6 +94,9 @@ int __wrap_poll (struct pollfd *f, nfds_t n, int t) {
 	if (in_lib && r == 0 && poll_late_eintr > 0) { poll_late_eintr--; errno = EINTR; return -1; }
 	return r;
 }
+static int getsockname_fail;
+int __real_getsockname (int, struct sockaddr *, socklen_t *);
+int __wrap_getsockname (int fd, struct sockaddr *a, socklen_t *l) { if (in_lib && getsockname_fail > 0) { getsockname_fail--; errno = ENOBUFS; return -1; } return __real_getsockname (fd, a, l); }
 static pint icmp (pconstpointer a, pconstpointer b) { return (pint) ((intptr_t) a - (intptr_t) b); }
 static ppointer thr_fn (ppointer arg) { (void) arg; return NULL; }
 static PSocketAddress *loop0 (void) { return p_socket_address_new ("127.0.0.1", 0); }
@@ -149,6 +152,30 @@ static int acquire (const char *k, int want_ok, Obj *o) {
 		poll_late_eintr = poll_early_eintr = 0;
 		o->a = l; o->b = u; ok = want_ok;
 	}
+	else if (!strcmp (k, "from_fd")) {        /* a socket object around a descriptor the caller opened: adopted on success, left alone on failure */
+		int sv = in_lib, fd, pfd[2] = { -1, -1 }; PSocket *s;
+		in_lib = 0;
+		if (want_ok) fd = __real_socket (AF_INET, SOCK_DGRAM, 0); else { if (pipe (pfd) != 0) pfd[0] = pfd[1] = -1; fd = pfd[0]; }
+		in_lib = sv;
+		s = p_socket_new_from_fd (fd, &err);
+		if (s) vt_emit ("{\"e\":\"fd_open\",\"fd\":%d,\"by\":\"adopt\"}", fd);      /* from here on the object owns the descriptor */
+		in_lib = 0;
+		if (!s) { int alive = fcntl (fd, F_GETFD) != -1; vt_emit ("{\"e\":\"caller_fd\",\"fd\":%d,\"alive\":%d}", fd, alive); if (want_ok) __real_close (fd); }
+		if (pfd[0] >= 0) { __real_close (pfd[0]); __real_close (pfd[1]); }
+		in_lib = sv;
+		o->a = s; ok = s != NULL;
+	}
+	else if (!strcmp (k, "accept_fail")) {    /* the accepted descriptor cannot be turned into a socket object: accept fails and closes it once */
+		PSocket *l = p_socket_new (P_SOCKET_FAMILY_INET, P_SOCKET_TYPE_STREAM, P_SOCKET_PROTOCOL_TCP, NULL), *s; PSocketAddress *a = loop0 (), *la; int sv = in_lib, cfd;
+		struct sockaddr_storage ss; psize n;
+		p_socket_bind (l, a, FALSE, NULL); p_socket_address_free (a); p_socket_listen (l, NULL); p_socket_set_timeout (l, 500);
+		la = p_socket_get_local_address (l, NULL); n = p_socket_address_get_native_size (la); p_socket_address_to_native (la, &ss, n); p_socket_address_free (la);
+		in_lib = 0; cfd = __real_socket (AF_INET, SOCK_STREAM, 0); if (connect (cfd, (struct sockaddr *) &ss, (socklen_t) n) != 0) { __real_close (cfd); cfd = -1; } in_lib = sv;
+		getsockname_fail = 1; s = p_socket_accept (l, &err); getsockname_fail = 0;
+		if (s) p_socket_free (s);
+		in_lib = 0; if (cfd >= 0) __real_close (cfd); in_lib = sv;
+		o->a = l; ok = want_ok;
+	}
 	else if (!strcmp (k, "bind_used")) {      /* bind on a port that is in use fails */
 		PSocket *l = p_socket_new (P_SOCKET_FAMILY_INET, P_SOCKET_TYPE_STREAM, P_SOCKET_PROTOCOL_TCP, NULL), *m = p_socket_new (P_SOCKET_FAMILY_INET, P_SOCKET_TYPE_STREAM, P_SOCKET_PROTOCOL_TCP, NULL);
 		PSocketAddress *a = loop0 (), *la; pboolean r;
@@ -184,7 +211,7 @@ static void release (Obj *o) {
 	else if (!strcmp (k, "error")) p_error_free (o->a);
 	else if (!strcmp (k, "dir")) p_dir_free (o->a);
 	else if (!strcmp (k, "sockaddr")) p_socket_address_free (o->a);
-	else if (!strcmp (k, "tcp") || !strcmp (k, "tcp_timeout") || !strcmp (k, "sock_intr") || !strcmp (k, "bind_used") || !strcmp (k, "udp")) { if (o->c) { p_socket_close (o->c, NULL); p_socket_free (o->c); } if (o->b) p_socket_free (o->b); if (o->a) { p_socket_shutdown (o->a, TRUE, TRUE, NULL); p_socket_free (o->a); } }
+	else if (!strcmp (k, "tcp") || !strcmp (k, "tcp_timeout") || !strcmp (k, "sock_intr") || !strcmp (k, "from_fd") || !strcmp (k, "accept_fail") || !strcmp (k, "bind_used") || !strcmp (k, "udp")) { if (o->c) { p_socket_close (o->c, NULL); p_socket_free (o->c); } if (o->b) p_socket_free (o->b); if (o->a) { p_socket_shutdown (o->a, TRUE, TRUE, NULL); p_socket_free (o->a); } }
 	else if (!strcmp (k, "sem")) { p_semaphore_take_ownership (o->a); p_semaphore_free (o->a); }
 	else if (!strcmp (k, "sem2")) { if (o->a) p_semaphore_free (o->a); if (o->b) p_semaphore_free (o->b); if (o->c) { p_semaphore_take_ownership (o->c); p_semaphore_free (o->c); } }
 	else if (!strcmp (k, "shm")) { p_shm_take_ownership (o->a); p_shm_free (o->a); }
